@@ -899,7 +899,7 @@ def run(rep, repo, tier):
         'stable shape u16 n + n elements, pairs/tuples declaration order; counted blocks of the archive API are consumed '
         'completely on every path and copied with min(count, capacity); concrete readers/writers copy in the right '
         'direction and advance their cursor by exactly the copied size; entry points bind reader/writer to the caller '
-        'bytes / returned string. Abstract interpretation proves that deserialize_buffer_storage::load never reads '
+        'bytes / returned string; every reader that appends to its target (vector/map helpers) is handed a freshly constructed object for each value it reads (R-FRESH: no temporary re-used across loop iterations). Abstract interpretation proves that deserialize_buffer_storage::load never reads '
         'beyond the supplied bytes (cursor + len <= size, len <= requested, closed form of the new cursor). Not decided: '
         'equality of decoded values beyond field correspondence (element order inside containers, map/vector '
         'insertion semantics), behaviour for containers with more than 65535 elements, and the unbounded '
@@ -920,6 +920,8 @@ def run(rep, repo, tier):
     counted_rules(rep, moda, repo)
     cursor_rules(rep, moda, repo)
     entry_rules_a(rep, moda, repo, ra)
+    from c09_fresh import fresh_rule
+    fresh_rule(rep, moda)
 
     modb = witness(WIT_B, repo)
     rep.units.append('witness/%s -> igris/serialize/serializer.h, serialize_protocol.h, serialize_storage.h, '
